@@ -2906,13 +2906,13 @@ protected:
             auto const  pos = boost::lexical_cast< size_t>( valCopy);
             if (pos >= mDestVar.size())
                mDestVar.resize( pos + pos / 2 + 1);
-            mDestVar[ pos] = !mResetFlags;
+            mDestVar.at( pos) = !mResetFlags;
          } else
          {
             auto const  pos = boost::lexical_cast< size_t>( listVal);
             if (pos >= mDestVar.size())
                mDestVar.resize( pos + pos / 2 + 1);
-            mDestVar[ pos] = !mResetFlags;
+            mDestVar.at( pos) = !mResetFlags;
          } // end if
       } // end for
    } // TypedArg< std::vector< bool>>::assign
